@@ -112,7 +112,7 @@ def run_c26(ctx, replay_path=None):
         res.extra["exhaustive_small_scope"] = "all op sequences: N=1, 2 addresses, length 5; N=2, 3 addresses, length 4"
     impl, model, dis = ctx.run_pair(sessions)
     for d in dis:
-        ops = ctx.shrink_disagreement(sessions[d["session"]]) if len(res.disagreements) < 3 else sessions[d["session"]]
+        ops = ctx.shrink_disagreement(sessions[d["session"]]) if len(res.disagreements) < 1 else sessions[d["session"]]
         res.disagreements.append(dict(d, ops=ops))
     for ops, r in zip(sessions, impl):
         res.evaluations += len(r["out"])
